@@ -35,9 +35,15 @@ Definition zernike_compose (mask : arr S) (coeffs : list S) (normalize : bool) (
         (fun r c => sumZ (Z.of_nat (length coeffs))
                          (fun i => (nthZ coeffs i * get (zernike mask (i + 1)%Z normalize crd) r c)%K)).
 
+Definition nthmode (modes : list Z) (i : Z) : Z := nth (Z.to_nat i) modes 0.      (* modes[i] *)
+(* caller side (not lentil code): the coefficient vector of length n that makes zernike_compose
+   produce  sum_i cs_i * mode(modes_i);  entry t belongs to Noll index t+1 (harness: scatter()) *)
+Definition scatter (n : Z) (modes : list Z) (cs : list S) : list S :=
+  tabZ n (fun t => sumZ (Z.of_nat (length modes))
+                        (fun i => if nthmode modes i =? t + 1 then nthZ cs i else k0)).
+
 (* a.ravel() / a.reshape(-1): row-major *)
 Definition ravel (a : arr S) (p : Z) : S := get a (p / nc a) (p mod nc a).
-Definition nthmode (modes : list Z) (i : Z) : Z := nth (Z.to_nat i) modes 0.
 
 (* zernike_basis(mask, modes, vectorize=True, ...): row i = zernike(mask, modes[i], ...) flattened *)
 Definition basis_mat (mask : arr S) (modes : list Z) (normalize : bool) (crd : option Crd) (i p : Z) : S :=
@@ -64,5 +70,5 @@ Definition zernike_remove (opd mask : arr S) (modes : list Z) (crd : option Crd)
                        - sumZ (Z.of_nat (length modes))
                               (fun i => (get (zernike mask (nthmode modes i) true crd) r c * nthZ coeffs i)%K))%K))).
 End ZernikeFit.
-Arguments zernike {S Crd}. Arguments zernike_compose {S Crd}. Arguments ravel {S}.
+Arguments scatter {S}. Arguments zernike {S Crd}. Arguments zernike_compose {S Crd}. Arguments ravel {S}.
 Arguments basis_mat {S Crd}. Arguments zernike_fit {S Crd}. Arguments zernike_remove {S Crd}.
